@@ -98,7 +98,7 @@ func runC05(tier string) int {
 	r.HangLimit = 90 * time.Second // one case is one small program: a compilation that takes this long hangs
 	plans, swN := enginePlans(tier)
 	isChunk := func(s string) bool { return chunkLabelRe.MatchString(s) }
-	forEachEngineProgram(r, plans, swN, func(w int, p engineProgram) {
+	evalProgram := func(w int, p engineProgram) {
 		scripts := []*model.Script{p.Script}
 		src := model.Print(scripts)
 		ro := comp.Compile(src, comp.Opts{Optimize: true})
@@ -161,7 +161,45 @@ func runC05(tier string) int {
 		if r.WantSample() && ro.Out != rn.Out && gotosN > gotosO+1 {
 			r.Sample(map[string]interface{}{"source": src, "gotos_unoptimized": gotosN, "gotos_optimized": gotosO, "product_states": st.States})
 		}
+	}
+	forEachEngineProgram(r, plans, swN, evalProgram)
+	// Conditions whose operand tests share one var: different operators and constants (2, 3, 4), the same test written plainly
+	// and with value(), and constants whose decimal spellings are prefixes of one another (1, 10, 100) - in every condition position.
+	maxShared := 3
+	if tier == "thorough" {
+		maxShared = 4
+	}
+	type sharedJob struct {
+		tree  *model.Cond
+		forms []int
+	}
+	var sjobs []sharedJob
+	for k := 2; k <= maxShared; k++ {
+		for _, t := range model.CondShapes(k) {
+			for _, base := range []int{18, 21, 24, 100, 103, 200, 201, 202, 203, 204, 205} {
+				f := make([]int, k)
+				for i := range f {
+					switch {
+					case base < 100:
+						f[i] = 18 + (base-18+i*2)%12
+					case base < 200:
+						f[i] = base
+					default:
+						f[i] = 200 + (base-200+i)%6
+					}
+				}
+				sjobs = append(sjobs, sharedJob{t, f})
+			}
+		}
+	}
+	sharedDone := r.Parallel(uint64(len(sjobs)*numCondPositions), func(w int, idx uint64) {
+		j, pos := sjobs[idx/numCondPositions], int(idx%numCondPositions)
+		cond := model.Decorate(j.tree, make([]uint8, model.CountNodes(j.tree)), func(i int) *model.Leaf { return sharedLeaf(j.forms[i], i) })
+		evalProgram(w, engineProgram{Script: condProgram(cond, pos), Desc: fmt.Sprintf("shared-operand condition %q at position %d", model.CondString(cond), pos)})
 	})
+	if !sharedDone {
+		r.NotExhaustive("shared-operand conditions not completed")
+	}
 	// Files with hoisted data and several statement kinds: same hoisted data and user-visible labels in both forms.
 	anyChunk := regexp.MustCompile(`^[A-Za-z0-9_]+_[0-9]+$`)
 	evalFile := func(fp *fileProgram) {
